@@ -16,11 +16,13 @@ pub struct LayoutParams {
     pub flags: u32,
     pub in_use: bool,
     pub max: u32,
+    /// the platform refuses the k-th DMA allocation (0: none)
+    pub fail_at: usize,
 }
 
 impl LayoutParams {
     pub fn to_json(&self) -> Value {
-        json!({"family":"layout","n":self.n,"legacy":self.legacy,"flags":self.flags,"in_use":self.in_use,"max":self.max})
+        json!({"family":"layout","n":self.n,"legacy":self.legacy,"flags":self.flags,"in_use":self.in_use,"max":self.max,"fail_at":self.fail_at})
     }
     pub fn from_json(v: &Value) -> Self {
         LayoutParams {
@@ -29,6 +31,7 @@ impl LayoutParams {
             flags: v["flags"].as_u64().unwrap() as u32,
             in_use: v["in_use"].as_bool().unwrap(),
             max: v["max"].as_u64().unwrap() as u32,
+            fail_at: v["fail_at"].as_u64().unwrap_or(0) as usize,
         }
     }
 }
@@ -49,7 +52,13 @@ pub fn all_params(thorough: bool) -> Vec<LayoutParams> {
                     answers.truncate(2);
                 }
                 for (in_use, max) in answers {
-                    v.push(LayoutParams { n, legacy, flags, in_use, max });
+                    v.push(LayoutParams { n, legacy, flags, in_use, max, fail_at: 0 });
+                }
+                // fault point: no memory for the first / second region
+                if flags == 0 || flags == 7 || thorough {
+                    for fail_at in 1..=2 {
+                        v.push(LayoutParams { n, legacy, flags, in_use: false, max: n as u32, fail_at });
+                    }
                 }
             }
         }
@@ -65,6 +74,7 @@ pub fn run(p: &LayoutParams, sc: &str) -> (Vec<String>, Value) {
     with_world(|w| {
         w.external_calls = true;
         w.next_dma_pa = DMA_BASES[k % DMA_BASES.len()];
+        w.fail_dma_at = if p.fail_at > 0 { Some(p.fail_at) } else { None };
     });
     hooks::install(Box::new(|_| {}));
     let (ind, ev, ap) = (p.flags & 1 != 0, p.flags & 2 != 0, p.flags & 4 != 0);
